@@ -891,13 +891,12 @@ impl WmoParser {
         &self,
         chunks: &HashMap<ChunkId, Chunk>,
         reader: &mut R,
-        version: WmoVersion,
+        _version: WmoVersion,
         header: &WmoHeader,
     ) -> Result<Option<String>> {
-        // Skybox was introduced in WotLK
-        if !version.supports_feature(WmoFeature::SkyboxReferences) {
-            return Ok(None);
-        }
+        // The version cannot gate this: every file from Classic to MoP stores
+        // version 17, which parse_version maps to Classic. The header flag and
+        // the MOSB chunk itself say whether there is a skybox.
 
         // Check if this WMO has a skybox
         if !header.flags.contains(WmoFlags::HAS_SKYBOX) {
